@@ -2,7 +2,8 @@
 
 Case (JSON):
   {"variant": "wt" | "eb_wt" | "eb_wt_sub" | "tw" | "eb_tw" | "eb_tw_sub",
-   "via": "register" | "notify"      (event-based variants: feed through notify(Event / TimedEvent))
+   "via": "register" | "notify" | "producer"  (event-based variants: feed through notify(Event / TimedEvent), or
+                                             fired by an EventProducer the statistic listens to)
    "cls": label of the data class the generator used (informative only)
    "t0":  first timestamp (int or float.hex()), timestamped variants only
    "ops": both:         ["q", which, a, x]  the observation (a, x) with the value / the weight or time / both given as
@@ -186,7 +187,7 @@ def strategy(tier):
     def case(draw):
         variant = draw(st.sampled_from(["wt", "eb_wt", "eb_wt_sub", "eb_wt_sub", "wt",
                                         "tw", "tw", "eb_tw", "eb_tw_sub", "eb_tw_sub"]))
-        via = draw(st.sampled_from(["register", "register", "notify"]))
+        via = draw(st.sampled_from(["register", "register", "notify", "producer"]))
         vcls = draw(st.sampled_from(_VCLASSES))
         wcls = draw(st.sampled_from(_WCLASSES))
         if (vcls == "extreme") != (wcls == "extreme") and draw(st.booleans()):
@@ -476,10 +477,33 @@ def run_case(case):
     if event_based:
         out.label("via=" + via)
 
+    prod = None
+    if event_based and via == "producer":
+        from pydsol.core.pubsub import EventProducer
+        prod = EventProducer()
+        data_type = StatEvents.TIMESTAMP_DATA_EVENT if timed else StatEvents.WEIGHT_DATA_EVENT
+
+        class OneShot(EventListener):
+            """another listener of the same data event that unsubscribes itself when it is notified"""
+
+            def notify(self, event):
+                prod.remove_listener(data_type, self)
+
     def feed(a, x):
         """a = weight or timestamp"""
         numbers = isinstance(a, (int, float)) and isinstance(x, (int, float))
-        if event_based and via == "notify" and numbers:
+        if prod is not None and numbers:
+            # the statistic listens to a producer (subscribed twice: the repeated subscription is ignored), behind a
+            # self-removing listener; the observation is fired by the producer
+            prod.remove_all_listeners()
+            prod.add_listener(data_type, OneShot())
+            prod.add_listener(data_type, stat)
+            prod.add_listener(data_type, stat)
+            if timed:
+                prod.fire_timed(a, data_type, x)
+            else:
+                prod.fire(data_type, (a, x))
+        elif event_based and via == "notify" and numbers:
             if timed:
                 stat.notify(TimedEvent(a, StatEvents.TIMESTAMP_DATA_EVENT, x))
             else:
